@@ -226,5 +226,5 @@ pub fn run(env: &mut Env) {
         }
     }
     env.run_list::<History>(cases);
-    env.run_random::<History>(if t { 2_000_000 } else { 50_000 });
+    env.run_random::<History>(if t { 2_000_000 } else { 300_000 });
 }
